@@ -700,6 +700,10 @@ def run(ctx):
     ffi.rule_extent(ctx, "C11.FFI-EXTENT", I, ptr_req)
     rule_env_range(ctx, ctx.py, tu)
     rule_intdiv(ctx, tu)
+    # shared clause: the index data the engine subscripts with (cell environments, edge end points) is range-checked on the
+    # Python side, both ends of the range (C20.EXTIDX)
+    from . import c20 as _c20
+    borrow(ctx, "C11", _c20.rule_extidx, ctx.py)
     # lifecycle part of memory safety (shared rules, reported under this property's ids)
     flag = c10.find_flag(ctx, tu)
     n0 = len(ctx.insts)
